@@ -7,10 +7,10 @@ META = {
                 "ZFilter.__add__/__sub__/__mul__/__truediv__ with Stream coefficients", "ZFilterMeta.__rbinary__",
                 "Poly.__mul__/__truediv__/__add__/copy (thub accounting)", "Stream operators on coefficient streams",
                 "StreamTeeHub", "avoid_stream dispatch (Stream * z**-k)"],
-  "bounds": {"quick": "filters with <=2 numerator and <=2 denominator coefficients, any subset replaced by finite streams "
-                      "of symbolic values (length shorter, equal, longer than the input) or periodic streams; N<=3 inputs; "
-                      "algebra: sums, differences, products, scalings of one time-varying and one constant operand",
-             "thorough": "orders<=2, N<=4, two time-varying operands"},
+  "bounds": {"quick": "filters with <=3 numerator and <=3 denominator coefficients (orders<=2), any subset replaced by finite "
+                      "streams of symbolic values (length shorter, equal, longer than the input) or periodic streams; N<=4 inputs; "
+                      "algebra: sums, differences, products, quotients, scalings with one or two time-varying operands",
+             "thorough": "N<=5 inputs, all four operations on pairs of time-varying operands"},
   "outside": "stream-valued delays, coefficient streams inside non-causal operands, re-using a consumed filter object",
   "stubs": [],
   "assumptions": ["leading denominator values a0[n] != 0 (and derived leading coefficients != 0)",
@@ -219,7 +219,7 @@ def h_stream_times_delay(ctx, cfg):
 def tasks(tier, seed):
   T = []
   big = tier == "thorough"
-  N = 4 if big else 3
+  N = 5 if big else 4
   S, Sh, Lg, P = "s%d" % N, "s%d" % (N - 1), "s%d" % (N + 2), "p2"
   specs = [
     {"num": [(0, S)], "den": [(0, "c")]},
@@ -237,7 +237,7 @@ def tasks(tier, seed):
     {"num": [(0, "c"), (1, S)], "den": [(0, S), (1, S), (2, "c")]},
     {"num": [(0, "c")], "den": [(0, P), (1, S), (3, Lg)]},
   ]
-  if big:
+  if True:
     specs += [{"num": [(0, S), (1, S), (2, S)], "den": [(0, "c")]},
               {"num": [(0, "c")], "den": [(0, S), (1, S), (2, S)]},
               {"num": [(0, S), (2, P)], "den": [(0, Sh), (1, "c"), (2, S)]}]
@@ -263,11 +263,10 @@ def tasks(tier, seed):
             {"num": [(0, "c")], "den": [(0, "c"), (1, S), (2, P)]}):
     for op in ("samedenom", "samedenom_sub"):
       T.append(("h_algebra", {"op": op, "f": f, "g": C0, "N": N}))
-  if big:
-    for f in TV[:3]:
-      for g in TV[:3]:
-        for op in ("add", "mul"):
-          T.append(("h_algebra", {"op": op, "f": f, "g": g, "N": 3}))
+  for f in TV[:3]:
+    for g in TV[:3]:
+      for op in ("add", "mul") + (("sub", "div") if big else ()):
+        T.append(("h_algebra", {"op": op, "f": f, "g": g, "N": 3 if not big else 4}))
   for side in ("left", "right"):
     for k in (0, 1, 2):
       T.append(("h_stream_times_delay", {"side": side, "k": k, "N": N}))
